@@ -161,6 +161,7 @@ static int parsec_termdet_local_taskpool_ready(parsec_taskpool_t *tp)
     parsec_atomic_cas_ptr(&tp->tdm.monitor, PARSEC_TERMDET_LOCAL_NOT_READY, PARSEC_TERMDET_LOCAL_BUSY);
     PARSEC_DEBUG_VERBOSE(10, parsec_debug_output, "TERMDET-LOCAL:\tTASKPOOL %p READY", tp);
     PARSEC_OBJ_RETAIN(tp);
+    PARSEC_VERIF_POINT(PARSEC_VERIF_K_READ, &tp->nb_pending_actions);  /* plain read below (check-then-CAS) */
     if( tp->nb_pending_actions == 0) {
         /* It's possible another thread sees nb_pending_actions == 0 and BUSY before me, so call the callback
          * only if I'm the one setting to terminated */
@@ -189,6 +190,7 @@ static int32_t parsec_termdet_local_taskpool_set_nb_tasks(parsec_taskpool_t *tp,
             nbpa = parsec_atomic_fetch_dec_int32(&tp->nb_pending_actions) - 1;
             PARSEC_DEBUG_VERBOSE(10, parsec_debug_output, "TERMDET-LOCAL:\tTASKPOOL %p  NB_PA %d -> %d", tp, nbpa+1, nbpa);
         }
+        PARSEC_VERIF_POINT(PARSEC_VERIF_K_READ, &tp->tdm.monitor);  /* plain read below (check-then-CAS) */
         if( tp->tdm.monitor == PARSEC_TERMDET_LOCAL_BUSY && nbpa == 0 ) {
             PARSEC_DEBUG_VERBOSE(10, parsec_debug_output, "TERMDET-LOCAL:\tTASKPOOL %p nbpa == 0", tp);
             if( parsec_atomic_cas_ptr(&tp->tdm.monitor, PARSEC_TERMDET_LOCAL_BUSY, PARSEC_TERMDET_LOCAL_TERMINATING) ) {
@@ -207,6 +209,7 @@ static int32_t parsec_termdet_local_taskpool_set_runtime_actions(parsec_taskpool
     do {
         ov = tp->nb_pending_actions;
     } while(!parsec_atomic_cas_int32(&tp->nb_pending_actions, ov, v));
+    PARSEC_VERIF_POINT(PARSEC_VERIF_K_READ, &tp->tdm.monitor);  /* plain read below (check-then-CAS) */
     if( tp->tdm.monitor == PARSEC_TERMDET_LOCAL_BUSY && v == 0 ) {
         if( parsec_atomic_cas_ptr(&tp->tdm.monitor, PARSEC_TERMDET_LOCAL_BUSY, PARSEC_TERMDET_LOCAL_TERMINATING) ) {
             parsec_termdet_local_termination_detected(tp);
@@ -232,6 +235,7 @@ static int32_t parsec_termdet_local_taskpool_addto_nb_tasks(parsec_taskpool_t *t
         assert(nbpa >= 0);
         PARSEC_DEBUG_VERBOSE(10, parsec_debug_output, "TERMDET-LOCAL:\tTASKPOOL %p  NB_PA %d -> %d", tp, nbpa+1, nbpa);
     }
+    PARSEC_VERIF_POINT(PARSEC_VERIF_K_READ, &tp->tdm.monitor);  /* plain read below (check-then-CAS) */
     if( tp->tdm.monitor == PARSEC_TERMDET_LOCAL_BUSY && nbpa == 0 ) {
         if( parsec_atomic_cas_ptr(&tp->tdm.monitor, PARSEC_TERMDET_LOCAL_BUSY, PARSEC_TERMDET_LOCAL_TERMINATING) ) {
             parsec_termdet_local_termination_detected(tp);
@@ -249,6 +253,7 @@ static int32_t parsec_termdet_local_taskpool_addto_runtime_actions(parsec_taskpo
         return tp->nb_pending_actions;
     ov = parsec_atomic_fetch_add_int32(&tp->nb_pending_actions, v);
     assert(ov+v >= 0);
+    PARSEC_VERIF_POINT(PARSEC_VERIF_K_READ, &tp->tdm.monitor);  /* plain read below (check-then-CAS) */
     if( tp->tdm.monitor == PARSEC_TERMDET_LOCAL_BUSY && ov+v == 0 ) {
         if( parsec_atomic_cas_ptr(&tp->tdm.monitor, PARSEC_TERMDET_LOCAL_BUSY, PARSEC_TERMDET_LOCAL_TERMINATING) ) {
             parsec_termdet_local_termination_detected(tp);
